@@ -32,6 +32,7 @@ type Profile struct {
 type G struct {
 	S    *simrt.Source
 	Hist []*MgmtOp // valid full-update texts used so far (some later operations resubmit one verbatim)
+	LastNames [][]string // name lists of earlier calls of this run (some later calls repeat one verbatim)
 }
 
 func (g *G) Intn(n int) int { return g.S.Intn(n) }
@@ -54,15 +55,26 @@ func keyGroup(k int) int {
 		return 3
 	case SecNil, SecIfNil, SecSetNil:
 		return 4
-	case SecLocal, SecReader:
+	case SecLocal, SecReader, SecRangeKey:
 		return 5
 	}
 	return 0
 }
 
+var extremeSal = []int{9223372036854775807, -9223372036854775807, 1 << 62, -(1 << 62), 9223372036854775806, 1 << 53}
+
+// Salience draws a salience: small values with deliberate ties, and now and then a boundary value
+// (the saliences are int64; comparisons and searches must be exact over the whole range).
+func (g *G) Salience(span int) int {
+	if g.Pct(6) {
+		return extremeSal[g.Intn(len(extremeSal))]
+	}
+	return g.Range(0, 2*span) - span
+}
+
 // GenRule draws one rule.
 func (g *G) GenRule(p *Profile, id, ver int) *RuleDef {
-	r := &RuleDef{ID: id, Ver: ver, Sal: g.Range(0, 2*p.SalSpan) - p.SalSpan}
+	r := &RuleDef{ID: id, Ver: ver, Sal: g.Salience(p.SalSpan)}
 	var kinds []int
 	for k := 0; k < numSecKinds; k++ {
 		for i := 0; i < p.Secs[k]; i++ {
@@ -182,7 +194,13 @@ func (g *G) GenCall(p *Profile, rules []*RuleDef, idx int) *Call {
 				want = -1
 			}
 		}
-		c.Names = g.GenNames(p, rules, want)
+		if len(g.LastNames) > 0 && g.Pct(20) {
+			// the same selection as an earlier call, byte for byte (whatever happened to the rule set since)
+			c.Names = append([]string(nil), g.LastNames[g.Intn(len(g.LastNames))]...)
+		} else {
+			c.Names = g.GenNames(p, rules, want)
+		}
+		g.LastNames = append(g.LastNames, c.Names)
 	}
 	if c.Method == MDAG {
 		layers := g.Range(0, 4)
